@@ -154,6 +154,11 @@ func stateStr(w *fsnotify.Watcher) string {
 
 func newSession(root string, bufsz uint) *session {
 	w, realFd, injectFd, err := fsnotify.VerifNewInjected(bufsz)
+	for i := 0; i < 600 && err != nil && (errors.Is(err, unix.EMFILE) || errors.Is(err, unix.ENFILE)); i++ {
+		time.Sleep(100 * time.Millisecond) // the per-user inotify instance limit is shared with parallel checks
+		beat()
+		w, realFd, injectFd, err = fsnotify.VerifNewInjected(bufsz)
+	}
 	check(err)
 	s := &session{w: w, realFd: realFd, injectFd: injectFd, obs: &observed{}, root: root}
 	go func() {
